@@ -75,7 +75,9 @@ Definition u_apply (h : ush) (g' : engine) (o : list eout) (rs : list tres) : us
   let sp0 := if close_some o then sp_set_closing (u_sp h) true true else u_sp h in
   let '(sp1, piped, pipe_closed) := deliver_all sp0 (deliveries o) rs in
   let err := has_err o in
-  let sp2 := if err then sp_set_closing sp1 true (s_deadline sp1) else sp1 in
+  (* PeerError: initiate_close_due_to_error only; is_closing is set by close_initiated (UCloseInit), which the
+     worker calls next (the arm used to set is_closing itself, which pre-empted that call: fixed) *)
+  let sp2 := sp1 in
   ({| u_eng := g'; u_sp := sp2; u_close_reqs := u_close_reqs h; u_dead := u_dead h |},
    {| uo_pipe := piped; uo_ctrl := ctrls o;
       uo_net := sends o ++ (if close_some o then [OCork false] else []);
